@@ -86,7 +86,7 @@ pub fn run(cfg: &RunCfg) -> PropRun {
     let mut run = PropRun::default();
     run.rule = "pairs (A, B) of Range values as in C07, B with 1..4 alternatives (often inside A, touching A's endpoints inclusively/exclusively, prerelease bounds). Oracle: pointwise on ~40 probes per bound: within(A\\B) == within(A)&&!within(B) for every alternative of B; releases: sat(A\\B) == sat(A)&&!sat(B); None => exactly nothing of A is outside B (exact interval computation); partition: every probe within A is in exactly one of A∩B, A\\B and none outside A is in either. Non-trivial = >=2 alternatives of B overlap A, or B cuts A in two, or B shares a bound version with A; distinct by operand texts.".into();
     run.assumptions = vec!["bounds membership of a Range value is read from its canonical Display".into(), "satisfies() of prerelease versions on the result is not asserted (flipped bounds create new tagged endpoints)".into()];
-    let out = campaign(cfg, ID, "pairs", cfg.pick(200_000, 3_000_000), || pair_strategy(1, 4), check_pair);
+    let out = campaign(cfg, ID, "pairs", cfg.pick(400_000, 4_000_000), || pair_strategy(1, 4), check_pair);
     run.absorb(out);
     let multi = run.stats.class_count("B-multi-alternative");
     run.stats.notes.push(format!("multi-alternative B: {:.1}% of cases", 100.0 * multi as f64 / run.stats.cases.max(1) as f64));
